@@ -247,6 +247,13 @@ def _checker_validation(prop):
             out['automatic_mutation_sweep'] = json.load(open(j2)).get(prop, {})
         except (OSError, ValueError):
             out['automatic_mutation_sweep'] = {'error': (r.stdout + r.stderr)[-300:]}
+        j3 = os.path.join(tmpd, 'refactor.json')
+        r = subprocess.run([sys.executable, '-B', os.path.join(VERIF_DIR, 'selftest', 'autorefactor.py'), prop, '--json', j3],
+                           cwd=VERIF_DIR, env=env, capture_output=True, text=True, timeout=3000)
+        try:
+            out['behaviour_preserving_rewrite_sweep'] = json.load(open(j3)).get(prop, {})
+        except (OSError, ValueError):
+            out['behaviour_preserving_rewrite_sweep'] = {'error': (r.stdout + r.stderr)[-300:]}
     except Exception as e:      # pragma: no cover - validation must never break the check
         out['error'] = repr(e)
     finally:
